@@ -63,18 +63,67 @@ func compressorOf(comp string) frame.BodyCompressor {
 	return nil
 }
 
-// encodeFrame returns the wire bytes of frm. The body is encoded first and the header length is
-// taken from the encoded body (codec.EncodeFrame computes the length separately).
-func encodeFrame(codec frame.RawCodec, frm *frame.Frame) ([]byte, error) {
-	raw, err := codec.ConvertToRawFrame(frm)
-	if err != nil {
-		return nil, err
+// encodeFrame returns the wire bytes of frm (and the uncompressed body). The body is encoded
+// first and the header length is taken from the encoded body. Compressed bodies are checked to
+// decompress back to the plain body: the library's lz4 block compressor emits an empty block for
+// input it cannot shrink (tiny or random bodies); such bodies are written as a literal-only LZ4
+// block, which is what a real LZ4 encoder produces for incompressible input.
+func encodeFrame(comp string, frm *frame.Frame) (wire []byte, plain []byte, err error) {
+	codec := refCodec("")
+	ph := *frm.Header
+	ph.Flags = ph.Flags.Remove(primitive.HeaderFlagCompressed)
+	var pb bytes.Buffer
+	if err := codec.EncodeBody(&ph, frm.Body, &pb); err != nil {
+		return nil, nil, err
 	}
-	var buf bytes.Buffer
-	if err := codec.EncodeRawFrame(raw, &buf); err != nil {
-		return nil, err
+	plain = pb.Bytes()
+	body := plain
+	if frm.Header.Flags.Contains(primitive.HeaderFlagCompressed) {
+		cp := compressorOf(comp)
+		if cp == nil {
+			return nil, nil, fmt.Errorf("COMPRESSED flag without negotiated compression")
+		}
+		var cb bytes.Buffer
+		if err := cp.CompressWithLength(bytes.NewReader(plain), &cb); err != nil {
+			return nil, nil, err
+		}
+		body = cb.Bytes()
+		if !roundTrips(comp, body, plain) {
+			if comp != "lz4" {
+				return nil, nil, errNoRoundTrip
+			}
+			body = lz4Literal(plain)
+			if !roundTrips(comp, body, plain) {
+				return nil, nil, errNoRoundTrip
+			}
+		}
 	}
-	return buf.Bytes(), nil
+	h := *frm.Header
+	h.BodyLength = int32(len(body))
+	var out bytes.Buffer
+	if err := codec.EncodeHeader(&h, &out); err != nil {
+		return nil, nil, err
+	}
+	out.Write(body)
+	return out.Bytes(), plain, nil
+}
+
+// lz4Literal is [int length] + one LZ4 block consisting of a single literal run.
+func lz4Literal(plain []byte) []byte {
+	n := len(plain)
+	out := make([]byte, 4, n+n/255+8)
+	out[0], out[1], out[2], out[3] = byte(n>>24), byte(n>>16), byte(n>>8), byte(n)
+	if n < 15 {
+		out = append(out, byte(n<<4))
+	} else {
+		out = append(out, 0xF0)
+		rest := n - 15
+		for ; rest >= 255; rest -= 255 {
+			out = append(out, 255)
+		}
+		out = append(out, byte(rest))
+	}
+	return append(out, plain...)
 }
 
 type gen struct {
@@ -524,22 +573,9 @@ func (g *gen) responseBytes(rs *respShape, tok string, att int, stream int16, co
 	}
 	if rs.Compressed && comp != "none" && comp != "" {
 		frm.Header.Flags = frm.Header.Flags.Add(primitive.HeaderFlagCompressed)
-		raw, err := encodeFrame(refCodec(comp), frm)
-		if err != nil {
-			return nil, err
-		}
-		ph := *frm.Header
-		ph.Flags = ph.Flags.Remove(primitive.HeaderFlagCompressed)
-		var plain bytes.Buffer
-		if err := refCodec("").EncodeBody(&ph, frm.Body, &plain); err != nil {
-			return nil, err
-		}
-		if !roundTrips(comp, raw[9:], plain.Bytes()) {
-			return nil, errNoRoundTrip
-		}
-		return raw, nil
 	}
-	return encodeFrame(refCodec(comp), frm)
+	raw, _, err := encodeFrame(comp, frm)
+	return raw, err
 }
 
 var errNoRoundTrip = fmt.Errorf("compressed body does not round-trip through the reference compressor")
